@@ -29,6 +29,8 @@ def variants_for(inst, rng):
          ('ids_as_strings', {'ids_as_str': True}),
          ('renamed_permutation', {'ids': renamed, 'shuffle': 7}),
          ('renamed_fresh', {'ids': fresh_names}),
+         # names as they come out of fixed-width exports: blanks around them are part of the name
+         ('renamed_padded', {'ids': [('  %s' if g % 2 else '%s ') % nm for g, nm in enumerate(fresh_names)]}),
          ('scaled', {'scale': rng.choice([0.25, 2.0, 8.0])}),
          ('split_records', {'split_records': 1 + rng.randint(0, 3)}),
          ('split_records_shuffled', {'split_records': 1 + rng.randint(0, 3), 'shuffle': 1 + rng.randint(0, 10 ** 6)}),
